@@ -12,9 +12,11 @@ Lifts, from the Python ast and refusing any other shape:
 The fairness-metric definitions of `Model/Perm.lean` are written in terms of the generated constants, so a source change
 re-checks (or breaks) the C12 fairness theorems."""
 import ast
+import copy
 import os
 
 from .. import translate
+from . import normalize
 
 REL = "fairlearn/metrics/_fairness_metrics.py"
 BASE = {"selection_rate": "selrate", "true_positive_rate": "tpr", "false_positive_rate": "fpr"}
@@ -22,6 +24,67 @@ BASE = {"selection_rate": "selrate", "true_positive_rate": "tpr", "false_positiv
 
 def U(msg):
     return translate.Untranslatable(f"{REL}: {msg}")
+
+
+class _Subst(ast.NodeTransformer):
+    def __init__(self, env):
+        self.env = env
+
+    def visit_Name(self, node):
+        if isinstance(node.ctx, ast.Load) and node.id in self.env:
+            return copy.deepcopy(self.env[node.id])
+        return node
+
+
+def inline_locals(fn, rel=REL):
+    """The named fairness metrics are straight-line pipelines: `x = <expr>` statements (each local bound exactly once, at
+    top level), at most `if` statements whose branches return / raise, and a return.  Substituting every local into its
+    uses gives ONE expression per return, independent of the names of the locals, of temporaries being introduced or
+    inlined, and of the order of independent definitions.  (The substituted expressions only construct dicts and
+    MetricFrames from the arguments, so evaluating them at the use instead of at the definition computes the same
+    value.)  Returns a copy of `fn` whose body is the remaining `if` / `return` statements; anything else is refused."""
+    def bad(msg):
+        return translate.Untranslatable(f"{rel}: {fn.name}: {msg}")
+    args = {a.arg for a in fn.args.posonlyargs + fn.args.args + fn.args.kwonlyargs}
+    stores = {}
+    for n in ast.walk(fn):
+        if isinstance(n, ast.Name) and not isinstance(n.ctx, ast.Load):
+            stores[n.id] = stores.get(n.id, 0) + 1
+        elif isinstance(n, (ast.Lambda, ast.FunctionDef, ast.ListComp, ast.DictComp, ast.SetComp, ast.GeneratorExp, ast.NamedExpr)) \
+                and n is not fn:
+            raise bad("nested scope / walrus")
+    env, rest = {}, []
+    for st in fn.body:
+        if isinstance(st, ast.Expr) and isinstance(st.value, ast.Constant):
+            continue
+        if isinstance(st, ast.Assign):
+            if not (len(st.targets) == 1 and isinstance(st.targets[0], ast.Name) and stores.get(st.targets[0].id) == 1
+                    and st.targets[0].id not in args and not rest_has_return(rest)):
+                raise bad(f"assignment of unknown shape `{ast.unparse(st)[:60]}`")
+            env[st.targets[0].id] = _Subst(env).visit(copy.deepcopy(st.value))
+            continue
+        if isinstance(st, (ast.If, ast.Return)):
+            for n in ast.walk(st):
+                if isinstance(n, ast.stmt) and not isinstance(n, (ast.If, ast.Return, ast.Raise)):
+                    raise bad(f"statement of unknown shape under `{ast.unparse(st)[:40]}`")
+            rest.append(_Subst(env).visit(copy.deepcopy(st)))
+            continue
+        raise bad(f"statement of unknown shape `{ast.unparse(st)[:60]}`")
+    out = copy.copy(fn)
+    out.body = rest
+    return ast.fix_missing_locations(out)
+
+
+def rest_has_return(stmts):
+    return any(isinstance(s, ast.Return) for s in stmts)
+
+
+def if_else_returns(stmts):
+    """`if c: return a` followed by `return b`  ->  `if c: return a  else: return b`"""
+    if len(stmts) >= 2 and isinstance(stmts[-2], ast.If) and not stmts[-2].orelse and isinstance(stmts[-1], ast.Return) \
+            and len(stmts[-2].body) == 1 and isinstance(stmts[-2].body[0], ast.Return):
+        return stmts[:-2] + [ast.If(test=stmts[-2].test, body=stmts[-2].body, orelse=[stmts[-1]])]
+    return stmts
 
 
 def _frame_call(fn):
@@ -51,10 +114,7 @@ def _weights_ok(call, fn):
     consts = {n.value for n in ast.walk(sp) if isinstance(n, ast.Constant)}
     if "sample_weight" in names and "sample_weight" in consts:
         return
-    # _get_eo_frame builds the dict in local variables first
-    src = ast.dump(fn)
-    if "sample_weight" not in src:
-        raise U(f"{fn.name}: sample_weight is not handed to the metric")
+    raise U(f"{fn.name}: sample_weight is not handed to the metric")
 
 
 def _method_call(expr, where):
@@ -75,6 +135,10 @@ def _simple(fn, want_base, want_agg):
             if isinstance(n, ast.Call) and isinstance(n.func, ast.Attribute) and n.func.attr in ("difference", "ratio")]
     if aggs != [want_agg]:
         raise U(f"{fn.name}: aggregates {aggs}, expected [{want_agg}]")
+    body = fn.body          # (locals inlined) a single `return MetricFrame(...).<agg>(method=method)`
+    if not (len(body) == 1 and isinstance(body[0], ast.Return) and isinstance(body[0].value, ast.Call)
+            and isinstance(body[0].value.func, ast.Attribute) and body[0].value.func.value is call):
+        raise U(f"{fn.name}: does not return <MetricFrame>.{want_agg}(method=method)")
     if base != want_base and want_base is not None:
         pass
     return base
@@ -82,6 +146,8 @@ def _simple(fn, want_base, want_agg):
 
 def _eodds(fn, want_agg):
     """if agg == "worst_case": return max|min(eo.<agg>(method=method)) else: return eo.<agg>(method=method).mean()"""
+    fn = copy.copy(fn)
+    fn.body = if_else_returns(fn.body)
     ifs = [s for s in fn.body if isinstance(s, ast.If) and isinstance(s.test, ast.Compare)
            and isinstance(s.test.left, ast.Name) and s.test.left.id == "agg" and len(s.test.ops) == 1
            and isinstance(s.test.ops[0], ast.Eq)]
@@ -99,26 +165,27 @@ def _eodds(fn, want_agg):
         raise U(f"{fn.name}: worst_case is not builtin max/min of one argument")
     if _method_call(worst.args[0], fn.name) != want_agg:
         raise U(f"{fn.name}: worst_case aggregates the wrong table")
+    for e in (worst.args[0], other.func.value if isinstance(other, ast.Call) and isinstance(other.func, ast.Attribute) else None):
+        if not (isinstance(e, ast.Call) and isinstance(e.func, ast.Attribute) and isinstance(e.func.value, ast.Call)
+                and isinstance(e.func.value.func, ast.Name) and e.func.value.func.id == "_get_eo_frame"):
+            raise U(f"{fn.name}: the aggregate is not taken of the _get_eo_frame(...) frame")
     if not (isinstance(other, ast.Call) and isinstance(other.func, ast.Attribute) and other.func.attr == "mean"
             and not other.args and not other.keywords and _method_call(other.func.value, fn.name) == want_agg):
         raise U(f"{fn.name}: the other branch is not <frame>.{want_agg}(method=method).mean()")
-    frames = [n for n in ast.walk(fn) if isinstance(n, ast.Call) and isinstance(n.func, ast.Name) and n.func.id == "_get_eo_frame"]
-    if len(frames) != 1:
-        raise U(f"{fn.name}: expected one _get_eo_frame call")
+    for branch in (worst, other):       # (the locals are inlined: each return expression has its own copy of the call)
+        frames = [n for n in ast.walk(branch) if isinstance(n, ast.Call) and isinstance(n.func, ast.Name) and n.func.id == "_get_eo_frame"]
+        if len(frames) != 1 or [ast.unparse(a) for a in frames[0].args] != ["y_true", "y_pred", "sensitive_features", "sample_weight"] \
+                or frames[0].keywords:
+            raise U(f"{fn.name}: expected one _get_eo_frame(y_true, y_pred, sensitive_features, sample_weight) call")
     return worst.func.id
 
 
 def _eo_frame(fn):
-    dicts = [s for s in fn.body if isinstance(s, ast.Assign) and isinstance(s.value, ast.Dict)
-             and len(s.targets) == 1 and isinstance(s.targets[0], ast.Name) and s.targets[0].id == "fns"]
-    if len(dicts) != 1:
-        raise U("_get_eo_frame: expected `fns = {...}`")
-    d = dicts[0].value
-    cols = [_base_of(v, "_get_eo_frame") for v in d.values]
     call = _frame_call(fn)
-    m = _kw(call, "metrics")
-    if not (isinstance(m, ast.Name) and m.id == "fns"):
-        raise U("_get_eo_frame: MetricFrame is not built from `fns`")
+    d = _kw(call, "metrics")
+    if not isinstance(d, ast.Dict):
+        raise U("_get_eo_frame: MetricFrame is not built from a dict of metrics")
+    cols = [_base_of(v, "_get_eo_frame") for v in d.values]
     _weights_ok(call, fn)
     return cols
 
@@ -126,13 +193,16 @@ def _eo_frame(fn):
 @translate.lifter
 def lift(repo):
     with open(os.path.join(repo, REL)) as f:
-        tree = ast.parse(f.read())
+        tree = normalize.parse(f.read())
     fns = {n.name: n for n in tree.body if isinstance(n, ast.FunctionDef)}
+    if len(fns) != sum(1 for n in tree.body if isinstance(n, ast.FunctionDef)):
+        raise U("a function is defined twice")
     need = ["demographic_parity_difference", "demographic_parity_ratio", "equal_opportunity_difference",
             "equal_opportunity_ratio", "equalized_odds_difference", "equalized_odds_ratio", "_get_eo_frame"]
     for n in need:
         if n not in fns:
             raise U(f"function {n} not found")
+        fns[n] = inline_locals(fns[n])
     dp_d = _simple(fns["demographic_parity_difference"], None, "difference")
     dp_r = _simple(fns["demographic_parity_ratio"], None, "ratio")
     eo_d = _simple(fns["equal_opportunity_difference"], None, "difference")
